@@ -312,7 +312,9 @@ Inductive event := EvFrame (f : frame) | EvPeerUp.
 
 Record step := mkstep { s_now : Z; s_from : N; s_event : event; s_obs : obs }.
 
-Record acase := mkacase { k_start : Z; k_signing : bool; k_sleeping : bool; k_steps : list step }.
+(** [k_init]: sleep state when the first event arrives (0 awake, 1 sleeping, 2
+    polling: inside a poll window, the agent's doPoll running) *)
+Record acase := mkacase { k_start : Z; k_signing : bool; k_init : N; k_steps : list step }.
 
 Definition count_cb (k : kind) (ef : list effect) : N :=
   N.of_nat (length (filter (fun e => match e, k with ECallback KSleep, KSleep | ECallback KWake, KWake => true | _, _ => false end) ef)).
@@ -364,7 +366,7 @@ Fixpoint steps_ok (cfg : fcfg) (start prev : Z) (st : astate) (ss : list step) :
 
 Definition acase_ok (k : acase) : bool :=
   steps_ok (default_cfg (k_signing k)) (k_start k) (k_start k)
-           (mkastate (if k_sleeping k then Sleeping else Awake) [] None) (k_steps k).
+           (mkastate (match k_init k with 0%N => Awake | 1%N => Sleeping | _ => Polling end) [] None) (k_steps k).
 
 Fixpoint amismatches_from (i : N) (cs : list acase) : list N :=
   match cs with
